@@ -437,6 +437,19 @@ func TestC53(t *testing.T) {
 			return
 		}
 		inLen, outLen := len(inst.in), len(inst.want)
+		// the reference output (memory the function under test allocated or
+		// filled in the separate-buffer call) and the input template are
+		// re-verified after the whole enumeration: no retained alias may change them
+		wantCopy, inCopy, adCopy := append([]byte(nil), inst.want...), append([]byte(nil), inst.in...), append([]byte(nil), adBytes...)
+		defer func() {
+			m.Count("earlier_outputs_reverified", 1)
+			if !bytes.Equal(inst.want, wantCopy) {
+				m.Violation("earlier-output-changed:"+label, map[string]any{"function": label, "n": u.n, "was": mon.FullHex(wantCopy), "now": mon.FullHex(inst.want)})
+			}
+			if !bytes.Equal(inst.in, inCopy) || !bytes.Equal(adBytes, adCopy) {
+				m.Violation("input-modified:"+label, map[string]any{"function": label, "n": u.n, "which": "heap copy of in/ad handed to the function"})
+			}
+		}()
 		if i < 2 {
 			m.Sample(map[string]any{"function": label, "n": u.n, "in": mon.Hex(inst.in), "reference_out": mon.Hex(inst.want), "offsets": "-64..+64"})
 		}
